@@ -21,7 +21,9 @@ EXPLANATION = (
     'is opt-in: queue_purge_old_apps is control-dependent on --purge, '
     'iterates initial_diff.deleted, and the gate ignores deleted apps exactly '
     'when not purging; R-C15.4 signature entries are removed only from the '
-    'simulation\'s own app signature with the mutation\'s own model name.')
+    'simulation\'s own app signature with the mutation\'s own model name; '
+    'R-C15.5 ProjectSignature.get_app_sig resolves a name by exact app id '
+    'first and uses the legacy-label alias only as a fallback.')
 NOT_DECIDED = (
     'Non-interference with other apps\' tables and rows for every project '
     'layout (prefix table names, shared m2m tables).')
@@ -287,7 +289,57 @@ def r4_signature_removal_scoped(ctx):
             ctx.finding(f, c, 'remove_app_sig called from %s' % f.qualname)
 
 
+def r5_exact_lookup_first(ctx):
+    """The app named for purge/delete is resolved by exact app id first; the
+    legacy-label alias is only a fallback."""
+    ctx.rule('R-C15.5')
+    p = ctx.program
+    f = p.func('signature', 'ProjectSignature.get_app_sig')
+    g = ctx.cfg(f)
+    exact = [n for n in g.nodes if n.kind == 'stmt' and
+             isinstance(n.ast, ast.Assign) and (
+                 ('_app_sigs.get(' in unparse(n.ast.value)) or
+                 ('_app_sigs[' in unparse(n.ast.value)))]
+    legacy = [n for n in g.nodes if n.kind == 'test' and
+              'legacy_app_label' in unparse(n.ast)]
+    if not exact:
+        ctx.finding(f, None, 'get_app_sig has no exact lookup by app id: an '
+                    'app whose *legacy* label equals the requested id can be '
+                    'returned instead of the app stored under that id (a '
+                    'purge would drop the wrong app\'s tables)',
+                    key='no-exact-lookup')
+        return
+    res = exact[0].ast.targets[0]
+    none_tests = [t for t in g.nodes if t.kind == 'test' and
+                  isinstance(t.ast, ast.Compare) and
+                  unparse(t.ast.left) == unparse(res) and
+                  isinstance(t.ast.ops[0], ast.Is) and
+                  unparse(t.ast.comparators[0]) == 'None']
+    ok = legacy and all(
+        any(g.guarded_by(l, t, 'T') for t in none_tests) and
+        g.dominates(exact[0], l) for l in legacy)
+    if ok:
+        ctx.ok(f, 'the legacy-label alias is consulted only when the exact '
+               'app id is not stored', legacy[0].ast)
+    elif not legacy:
+        ctx.ok(f, 'lookup is by exact app id only')
+    else:
+        ctx.finding(f, legacy[0].ast, 'the legacy-label comparison is not '
+                    'restricted to the case where the exact app id is '
+                    'missing: the first app whose legacy label matches wins '
+                    'over the app stored under that id',
+                    key='legacy-before-exact')
+    # the legacy scan also tests equality with the requested id
+    for l in legacy:
+        if isinstance(l.ast, ast.Compare) and any(
+                isinstance(x, ast.Name) and x.id == f.params[1]
+                for x in ast.walk(l.ast)):
+            ctx.ok(f, 'legacy alias is compared with the requested id',
+                   l.ast)
+
+
 def run(ctx):
+    r5_exact_lookup_first(ctx)
     r1_who_may_drop(ctx)
     r2_argument_provenance(ctx)
     r3_purge_opt_in(ctx)
